@@ -302,6 +302,57 @@ def grid_unit(unit):
                     h.close()
             part['states'] += 1
             run.drop(path)
+    # settings changed through two handles in turn: the last reset wins for
+    # every handle (after it reloads), for a new handle and for an unpickled
+    # one - also when a handle writes back the value it still remembers
+    for kind in ('cache', 'fanout'):
+        for key, first, second in (('cull_limit', 0, 7), ('size_limit', 3000,
+                                                           6000),
+                                   ('statistics', 0, 1),
+                                   ('eviction_policy', 'none',
+                                    'least-recently-used')):
+            if kind == 'fanout' and key == 'size_limit':
+                continue   # reopening a FanoutCache re-divides the default
+                           # total: recorded finding F-C18-fanout-size-limit
+            path = run.fresh_dir('p')
+            ENV.reset(run.scratch())
+            mk = (lambda **kw: dc.Cache(path, **kw)) if kind == 'cache' else \
+                (lambda **kw: dc.FanoutCache(path, shards=3, **kw))
+            a = mk(**{key: first})
+            b = mk()
+            try:
+                scale = 3 if kind == 'fanout' and key == 'size_limit' else 1
+                for who, value in ((b, second), (a, first), (b, second),
+                                   (a, first)):
+                    call(who.reset, key, value / scale
+                         if scale != 1 else value)
+                part['transitions'] += 1
+                part['executions'] += 1
+                want = first / scale if scale != 1 else first
+                c = mk()
+                seen = {'handle B after reload': call(b.reset, key),
+                        'new handle': getattr(c, key),
+                        'unpickled copy of A':
+                            getattr(pickle.loads(pickle.dumps(a)), key),
+                        'handle A': getattr(a, key)}
+                c.close()
+                wrong = {k: v for k, v in seen.items() if v != want}
+                if wrong:
+                    part['violations'].append({
+                        'signature': {'clause': 'settings-lost', 'kind': kind,
+                                      'how': 'two handles reset in turn',
+                                      'size_limit_given': False},
+                        'message': 'settings-lost: %s: handles A and B set %s '
+                                   'to %r and %r in turn, A last; %r expected '
+                                   'everywhere but %r' % (kind, key, first,
+                                                          second, want, wrong),
+                        'replay': {'engine': 'GRID', 'module': 'props.c18',
+                                   'kind': kind, 'settings': {key: first},
+                                   'how': 'two handles reset in turn'}})
+            finally:
+                a.close()
+                b.close()
+                run.drop(path)
     return part
 
 
